@@ -658,6 +658,11 @@ static int do_call (ctx *c, char *s)
   else
     rl = ((gfn_l) f->fn) (ia[0], ia[1], ia[2], ia[3], ia[4], ia[5], ia[6], ia[7], da[0], da[1]);
   in_lib = 0;
+  if (!strcmp (name, "gmp_randinit_lc_2exp_size") && (int) rl == 0)
+    {
+      /* unsupported size: the state was not initialised */
+      for (k = 0; k < na; k++) if (A[k].role == 'R') { int i; for (i = 0; i < NR; i++) if ((void *) c->R[i] == A[k].ptr) c->Rinit[i] = 0; }
+    }
   /* reply */
   ob_putc (&c->out, '=');
   switch (f->ret[0])
